@@ -41,6 +41,8 @@ def main():
     env = 'CARGO_TARGET_DIR=%s/target ' % wt
     mj = json.dumps(meta).lower()
     feat = ' --features "transaction acceptor"' if ('transaction' in mj and 'feature' in mj) else ''
+    if 'scram' in mj and 'feature' in mj:
+        feat = ' --features "acceptor scram"'
     ran = []
     res = dict(confirmed=None)
     prev = os.path.join(ROOT, 'seeded', sid, 'meta.json')
